@@ -98,7 +98,7 @@ ScanItem(sc0, it, lc) ==
                        IN  Emit([RemoveKey(s1) EXCEPT !.allow = (sc.flow = 0)], [k |-> "VALUE"])
              [] t = "alias" -> Emit([SaveKey(sc, line, col) EXCEPT !.allow = FALSE], [k |-> "ALIAS", a |-> it.a])
              [] t = "anchor" -> Emit([SaveKey(sc, line, col) EXCEPT !.allow = FALSE], [k |-> "ANCHOR", a |-> it.a])
-             [] t = "tag" -> Emit([SaveKey(sc, line, col) EXCEPT !.allow = FALSE], [k |-> "TAG", tag |-> it.tag, h |-> it.h])
+             [] t = "tag" -> Emit([SaveKey(sc, line, col) EXCEPT !.allow = FALSE], [k |-> "TAG", tag |-> it.tag, hd |-> it.hd, sfx |-> it.sfx])
              [] t = "scalar" ->
                   LET tok == [k |-> "SCALAR", v |-> it.v, plain |-> it.style = "plain"]
                   IN  IF it.style \in {"literal", "folded"} THEN Emit([RemoveKey(sc) EXCEPT !.allow = TRUE], tok)
@@ -121,7 +121,7 @@ K(toks, i) == IF i <= Len(toks) THEN toks[i].k ELSE "SE"
 Ev(k) == [k |-> k, a |-> <<>>, t |-> <<>>, v |-> <<>>, i |-> <<>>, p |-> 0, ver |-> <<>>, tags |-> <<>>]
 EmptyScalar(a, t) == [Ev("Scalar") EXCEPT !.a = a, !.t = t, !.p = 1]
 
-CONSTANTS AnchorText(_), TagValue(_), ScalarText(_)
+CONSTANTS AnchorText(_), ResolveTag(_, _, _, _), ScalarText(_)
 
 RECURSIVE ParseNode(_, _, _, _, _), BlockSeq(_, _, _, _), IndentlessSeq(_, _, _, _), BlockMap(_, _, _, _),
           FlowSeq(_, _, _, _, _), FlowMap(_, _, _, _, _)
@@ -136,11 +136,11 @@ ParseNode(toks, i0, block, indentless, handles) ==
            itg == IF k0 = "TAG" THEN i0 ELSE i0 + 1
            i == i0 + (IF hasA THEN 1 ELSE 0) + (IF hasT THEN 1 ELSE 0)
            a == IF hasA THEN AnchorText(toks[ia].a) ELSE <<>>
-           t == IF hasT THEN TagValue(toks[itg].tag) ELSE <<>>
+           t == IF hasT THEN ResolveTag(toks[itg].hd, toks[itg].sfx, toks[itg].tag, handles) ELSE <<>>
            k == K(toks, i)
            Start(kind) == [Ev(kind) EXCEPT !.a = a, !.t = t]
            Wrap(kind, r) == IF r.ok THEN POk(<<Start(kind)>> \o r.evs, r.i) ELSE r
-       IN  IF hasT /\ toks[itg].h \in {"h1", "hu"} /\ toks[itg].h \notin handles THEN PErr("found undefined tag handle", itg)
+       IN  IF hasT /\ t = <<0>> THEN PErr("found undefined tag handle", itg)
            ELSE IF indentless /\ k = "BENTRY" THEN Wrap("SequenceStart", IndentlessSeq(toks, i, handles, <<>>))
            ELSE IF k = "SCALAR" THEN POk(<<[Start("Scalar") EXCEPT !.v = ScalarText(toks[i].v), !.p = IF toks[i].plain THEN 1 ELSE 0]>>, i + 1)
            ELSE IF k = "FSS" THEN Wrap("SequenceStart", FlowSeq(toks, i + 1, handles, TRUE, <<>>))
